@@ -14,6 +14,8 @@ from props import (PROPS, OS_ASSUMPTIONS, U64MAX, WRITE_WORDS, QUERY_CH, primary
 
 READALL = f"read 0 {U64MAX}"
 PROBE = ["st", READALL, "dir", "vote 1000000 0", "ud aa", "flush 31337", "widle", "st", READALL,
+         # an append after recovery: purge far beyond last, then the next index (always legal)
+         "purge 2000000 5000000", "app 2000000,5000001,aa", "flush 31338", "widle", "st", READALL,
          "drop", "open", "st", READALL]
 
 
@@ -25,7 +27,7 @@ def layouts(named_scripts):
     res = {}
 
     def job(shard):
-        text = "".join(f"begin {n}\n" + "\n".join(l) + "\nlay\nend\n" for n, l in shard)
+        text = "".join(f"begin {n}\n" + "\n".join(l) + "\nst\nlay\nend\n" for n, l in shard)
         return core._run_bin(core.DRIVER, text, 600)[1]
 
     from concurrent.futures import ThreadPoolExecutor
@@ -37,8 +39,22 @@ def layouts(named_scripts):
                     if l.startswith("#lay "):
                         t = l.split()
                         lay.append((int(t[1]), int(t[2]), int(t[3]), [int(x) for x in t[4].split(",")]))
+                    if l.startswith("st "):
+                        LAST_ST[name] = l
                 res[name] = lay
     return res
+
+
+LAST_ST = {}
+
+
+def next_append(name, payload="aa"):
+    """A legal append for the state the model reports at the end of script `name`."""
+    st = LAST_ST.get(name, "")
+    m = re.search(r"last=(\d+),(\d+)", st)
+    if not m:
+        return "app 1,0," + payload
+    return f"app {int(m.group(1)) + 1},{int(m.group(2)) + 1},{payload}"
 
 
 def base_histories(rng, n, **kw):
@@ -89,12 +105,17 @@ def scripts_crash(tier, rng, prefix):
     per = 6 if tier == "quick" else 12
     bases = base_histories(rng, nb, max_ops=22, worker_steps=True, queries=(), flush_prob=(1, 2),
                            weights=dict(append=40, purge=10, truncate=6, ud=3, vote=6, commit=6))
-    # crash points: after any line past `open`
+    # crash points: after any line past `open`; and, for some of them, every amount of further
+    # worker progress (0..k released steps) so that the crash falls between any two of its calls
     named = []
     for bi, b in enumerate(bases):
         pts = sorted({2 + rng.below(max(1, len(b) - 2)) for _ in range(per)} | {len(b)})
         for p in pts:
             named.append((f"{prefix}b{bi}p{p}", b[:p]))
+        fl = [i + 1 for i, l in enumerate(b) if l.startswith("flush")]
+        for p in ([fl[rng.below(len(fl))]] if fl else []):
+            for k in range(1, 9 if tier == "quick" else 14):
+                named.append((f"{prefix}b{bi}p{p}w{k}", b[:p] + ["w ok"] * k))
     lays = layouts(named)
     out = []
     for name, pre in named:
@@ -241,7 +262,8 @@ def scripts_c10(tier, rng):
                 n2 = f"{name}t{tr}c{p}"
                 tail = ["dir", "open", "st", READALL, "dir"]
                 if tr == 1:
-                    tail += ["vote 1000000 0", "flush 1", "widle", "drop", "open", "st", READALL]
+                    tail += ["vote 1000000 0", "purge 2000000 5000000", "app 2000000,5000001,aa", "flush 1",
+                             "widle", "drop", "open", "st", READALL]
                 note = f"note c10 cut {nid} {ln} {','.join(map(str, bnd))} {p} 0 {tr}"
                 out.append((n2, pre + [note, "dir", f"cfg tr={tr}", f"fsop cut {nid} {p}", "fsop settle"] + tail))
             zs = [(b, m) for b in bnd for m in ([1, 2, 27, 28, 40] if tier == "quick" else
@@ -252,7 +274,8 @@ def scripts_c10(tier, rng):
                 n2 = f"{name}t{tr}z{b}m{m}"
                 tail = ["dir", "open", "st", READALL, "dir"]
                 if tr == 1:
-                    tail += ["vote 1000000 0", "flush 1", "widle", "drop", "open", "st", READALL]
+                    tail += ["vote 1000000 0", "purge 2000000 5000000", "app 2000000,5000001,aa", "flush 1",
+                             "widle", "drop", "open", "st", READALL]
                 note = f"note c10 zero {nid} {ln} {','.join(map(str, bnd))} {b} {m} {tr}"
                 out.append((n2, pre + [note, "dir", f"cfg tr={tr}", f"fsop zero {nid} {b} {m}", "fsop settle"] + tail))
     return out, {"bases": nb}
@@ -508,3 +531,51 @@ PROPS.update({
     "C09": dict(theorems=[], gen=scripts_c09, project=proj_recovery, oracle=oracle_c09, nontrivial=lambda s: len(s) > 6,
                 explanation="corruption detection", assumptions=OS_ASSUMPTIONS),
 })
+
+
+# ---------------------------------------------------------------------------
+# C07 across a recovery: small caches after a crash image has been opened
+# ---------------------------------------------------------------------------
+
+def scripts_c07_recovery(tier, rng):
+    nb = 40 if tier == "quick" else 400
+    bases = base_histories(rng, nb, max_ops=16, worker_steps=True, queries=(), flush_prob=(1, 2),
+                           payload_sizes=(1, 7, 300), weights=dict(append=55, purge=4, truncate=6))
+    named = []
+    for bi, b in enumerate(bases):
+        b = [l if not l.startswith("cfg") else rng.choice(["cfg mr=3", "cfg mr=2", "cfg mr=5 ms=200"]) for l in b]
+        for p in sorted({2 + rng.below(max(1, len(b) - 2)) for _ in range(3)} | {len(b)}):
+            named.append((f"c07r{bi}p{p}", b[:p]))
+    lays = layouts(named)
+    stage = []
+    for name, pre in named:
+        lay = lays.get(name, [])
+        if not lay:
+            continue
+        newest = lay[-1]
+        imgs = [[]]
+        if newest[2] == 0:
+            imgs.append([f"fsop cut {newest[0]} 0"])
+            imgs.append([f"fsop cut {newest[0]} {rng.below(newest[1] + 1)}"])
+        for k, ops in enumerate(imgs):
+            cache = rng.choice(["ci=0 cc=0", "ci=1", "cc=1", "ci=2 cc=400"])
+            stage.append((f"{name}i{k}", pre + ["crash"] + ops + ["fsop settle", f"cfg mr=64 {cache}", "open"]))
+    layouts(stage)  # learn the recovered `last` from the model
+    out = []
+    for name, pre in stage:
+        a1 = next_append(name, "aa")
+        m = re.match(r"app (\d+),(\d+),", a1)
+        a2 = f"app {m.group(1)},{int(m.group(2)) + 1},x7:3"
+        out.append((name, pre + [READALL, "iter", a1, READALL, "iter", a2, READALL, "iter", "stat"]))
+    return out
+
+
+_c07_gen = PROPS["C07"]["gen"]
+
+
+def gen_c07(tier, rng):
+    a, st = _c07_gen(tier, rng)
+    return a + scripts_c07_recovery(tier, rng), st
+
+
+PROPS["C07"]["gen"] = gen_c07
